@@ -410,6 +410,119 @@ theorem decode_total (H1 H2 : Mac) (secret : Secret) (name : List Nat) (value : 
 /-- without the hypothesis the statement is false: `min_version = 3` is a `ValueError` by design -/
 example : decode demoMac demoMac (.single []) [] [49] 0 0 3 = .uncaught "ValueError" := by decide
 
+/-! ### the `str → bytes` step (review finding: "never raises, whatever string it is given")
+
+`decode` above starts *after* `utf8(value)`.  `decodeIn` is the function the caller sees: the value is `bytes` or
+an arbitrary `str` (code points, lone surrogates included), the name an arbitrary `str`. -/
+
+/-- a string without surrogates encodes, and to what `utf8` says -/
+theorem utf8?_of_scalar (s : List Nat) (h : ∀ c ∈ s, isSurrogate c = false) : utf8? s = some (utf8 s) := by
+  unfold utf8?
+  have : s.any isSurrogate = false := by
+    rw [List.any_eq_false]
+    intro c hc
+    simp [h c hc]
+  simp [this]
+
+/-- a string holding a surrogate anywhere does not encode (`UnicodeEncodeError`) -/
+theorem utf8?_of_surrogate (s : List Nat) (c : Nat) (hc : c ∈ s) (hs : isSurrogate c = true) : utf8? s = none := by
+  unfold utf8?
+  have : s.any isSurrogate = true := List.any_eq_true.mpr ⟨c, hc, hs⟩
+  simp [this]
+
+/-- whenever `utf8?` succeeds it is `utf8` -/
+theorem utf8?_eq_some (s : List Nat) (b : Bytes) (h : utf8? s = some b) : b = utf8 s := by
+  unfold utf8? at h
+  split at h
+  · cases h
+  · exact (Option.some.inj h).symm
+
+/-- on encodable input the caller-level function IS `decode` on the encoded value: every theorem above
+(round trip, soundness, rejections) is a theorem about `decodeIn`. -/
+theorem decodeIn_encodable (H1 H2 : Mac) (secret : Secret) (name : List Nat) (value : PyVal) (v nb : Bytes)
+    (maxAge now : Int) (minVersion : Nat)
+    (hv : value.encode? = some v) (hn : utf8? name = some nb) :
+    decodeIn H1 H2 secret name value maxAge now minVersion
+      = decode H1 H2 secret name v maxAge now minVersion := by
+  unfold decodeIn decode
+  have hemp : value.isEmpty = v.isEmpty := by
+    cases value with
+    | bytes b => simp only [PyVal.encode?] at hv; cases hv; rfl
+    | str s =>
+      simp only [PyVal.encode?] at hv
+      have := utf8?_eq_some s v hv
+      subst this
+      cases s with
+      | nil => rfl
+      | cons c cs =>
+        simp only [PyVal.isEmpty, List.isEmpty_cons, utf8, List.flatMap_cons]
+        unfold utf8Cp
+        repeat' split
+        all_goals rfl
+  rw [hv, hn, hemp]
+  by_cases h2 : minVersion > 2
+  · simp [h2]
+  · simp only [h2, if_false]
+    by_cases he : v.isEmpty = true
+    · simp [he]
+    · simp only [he, Bool.false_eq_true, if_false]
+
+/-- **a value or a name with no UTF-8 form is answered with `None`** (and nothing else happens) -/
+theorem decodeIn_unencodable (H1 H2 : Mac) (secret : Secret) (name : List Nat) (value : PyVal)
+    (maxAge now : Int) (minVersion : Nat) (hmin : minVersion ≤ 2)
+    (h : value.encode? = none ∨ utf8? name = none) :
+    decodeIn H1 H2 secret name value maxAge now minVersion = .none := by
+  unfold decodeIn
+  have : ¬ (minVersion > 2) := by omega
+  simp only [this, if_false]
+  split
+  · rfl
+  · rcases h with h | h
+    · rw [h]
+    · rw [h]; split <;> simp_all
+
+/-- **Totality at the caller's level**: for every `bytes` or `str` value — lone surrogates included —, every
+`str` name, secret form, clock and `min_version ≤ 2`, `decode_signed_value` does not end in an uncaught
+exception. -/
+theorem decodeIn_total (H1 H2 : Mac) (secret : Secret) (name : List Nat) (value : PyVal) (maxAge now : Int)
+    (minVersion : Nat) (hmin : minVersion ≤ 2) (e : String) :
+    decodeIn H1 H2 secret name value maxAge now minVersion ≠ .uncaught e := by
+  unfold decodeIn
+  have : ¬ (minVersion > 2) := by omega
+  simp only [this, if_false]
+  repeat' split
+  all_goals first
+    | exact decode_total _ _ _ _ _ _ _ _ hmin _
+    | (intro h; cases h)
+
+/-- the defect that was fixed: before the fix a lone surrogate in the value (here `'\ud800'`), or in the name
+once the parser got as far as the signature (`'a|1|c'` under the name `'n\ud800'`), was an uncaught
+`UnicodeEncodeError`; the fixed function answers `None`. -/
+theorem decodeInUnfixed_raised :
+    decodeInUnfixed demoMac demoMac (.single [107]) [110] (.str [0xD800]) 0 0 1 = .uncaught "UnicodeEncodeError"
+    ∧ decodeInUnfixed demoMac demoMac (.single [107]) [110, 0xD800] (.str [97, 124, 49, 124, 99]) 0 0 1
+        = .uncaught "UnicodeEncodeError"
+    ∧ decodeIn demoMac demoMac (.single [107]) [110] (.str [0xD800]) 0 0 1 = .none
+    ∧ decodeIn demoMac demoMac (.single [107]) [110, 0xD800] (.str [97, 124, 49, 124, 99]) 0 0 1 = .none := by
+  refine ⟨by decide, by decide, by decide, by decide⟩
+
+/-- the fix changes nothing on encodable input -/
+theorem decodeInUnfixed_encodable (H1 H2 : Mac) (secret : Secret) (name : List Nat) (value : PyVal) (v nb : Bytes)
+    (maxAge now : Int) (minVersion : Nat)
+    (hv : value.encode? = some v) (hn : utf8? name = some nb) :
+    decodeInUnfixed H1 H2 secret name value maxAge now minVersion
+      = decodeIn H1 H2 secret name value maxAge now minVersion := by
+  unfold decodeInUnfixed decodeIn
+  rw [hv, hn]
+
+/-- non-vacuity: a `str` value with a non-ASCII scalar encodes (2 bytes), the neighbours of the surrogate block
+encode, every surrogate and a high/low pair kept as two code points do not -/
+example : (PyVal.str [0xE9]).encode? = some [0xC3, 0xA9] := by decide
+example : utf8? [0xD7FF] = some [0xED, 0x9F, 0xBF] ∧ utf8? [0xE000] = some [0xEE, 0x80, 0x80] := by decide
+example : utf8? [0xD800] = none ∧ utf8? [0xDFFF] = none ∧ utf8? [0xD83D, 0xDE00] = none := by decide
+example : keyVersionIn (.str [50, 124, 0xDC80]) = none := by decide
+example : createIn demoMac demoMac (.single [107]) [110, 0xD800] [118] 2 5 none = .raised "UnicodeEncodeError" := by decide
+
 /-! ### the ledger specification is met on its accepting side -/
 
 /-- If the ledger says a query must be accepted (same string, same name, same secret, fresh, version allowed),
